@@ -511,7 +511,9 @@ func fdFilestatSetTimesFn(_ context.Context, mod api.Module, params []uint64) ex
 	// Fall back to path based, despite it being less precise.
 	switch errno {
 	case experimentalsys.EPERM, experimentalsys.ENOSYS:
-		errno = f.FS.Utimens(f.Name, atim, mtim)
+		if f.FS != nil { // stdio and sockets aren't backed by a file system.
+			errno = f.FS.Utimens(f.Name, atim, mtim)
+		}
 	}
 
 	return errno
